@@ -366,6 +366,42 @@ def rule_validation(ctx, res):
                     if same_buf and mid_ok and set(srcs) == {'0', '1'} and is_octets(srcs['0']) and is_secret(srcs['1']) \
                             and shc and all(pos[id(e)] < pos[id(shc[0])] for e in cfs):
                         okh = okw = True
+                if sh and not zips and not sps and len(cfs) == 2:
+                    # form C: `buffer[..n].copy_from_slice(&octets); buffer[n..].copy_from_slice(&secret.to_be_bytes())` with n = octets.len():
+                    # the two half-open views meet at n and so cover the buffer (that each copy fits exactly is the panic obligation of C14/C15)
+                    def unmut(t):
+                        t = strip_transparent(t)
+                        while isinstance(t, tuple) and t[0] == 'mutated':
+                            t = strip_transparent(t[1])
+                        return t
+                    def is_octets_c(t):
+                        t = strip_transparent(t)
+                        return isinstance(t, tuple) and t[0] == 'call' and t[1].endswith(octets) and is_param(strip_transparent(t[2][0])) and strip_transparent(t[2][0])[1] == 1
+                    def is_secret_c(t):
+                        t = strip_transparent(t)
+                        return isinstance(t, tuple) and t[0] == 'call' and t[1].split('::')[-1] in ('to_be_bytes', 'to_le_bytes', 'to_ne_bytes') and is_param(strip_transparent(t[2][0]), 'secret')
+                    def is_mid(t):
+                        t = strip_transparent(t)
+                        return (isinstance(t, tuple) and t[0] == 'call' and t[1].split('::')[-1] == 'len' and is_octets_c(t[2][0])) or term_int(t) == ln - 4
+                    buf = unmut(sh[0][2][0])
+                    views = {}
+                    for e in cfs:
+                        d = strip_transparent(e[2][0])
+                        if not (isinstance(d, tuple) and d[0] == 'call' and d[1].split('::')[-1] == 'index_mut' and unmut(d[2][0]) == buf and buf[0] == 'repeat'):
+                            continue
+                        r = strip_transparent(d[2][1])
+                        if isinstance(r, tuple) and r[0] == 'agg' and r[1].startswith('std::ops::Range'):
+                            fs = dict(r[2]) if not isinstance(r[2], dict) else r[2]
+                            if r[1].startswith('std::ops::RangeTo::') and set(fs) == {'end'} and is_mid(fs['end']):
+                                views['head'] = e[2][1]
+                            if r[1].startswith('std::ops::RangeFrom::') and set(fs) == {'start'} and is_mid(fs['start']):
+                                views['tail'] = e[2][1]
+                    order = [e for e in p.effects if e[0] == 'call']
+                    pos = {id(e): i for i, e in enumerate(order)}
+                    shc = [e for e in order if e[1] == sh[0][1] and e[3] == sh[0][3]]
+                    if set(views) == {'head', 'tail'} and is_octets_c(views['head']) and is_secret_c(views['tail']) \
+                            and shc and all(pos[id(e)] < pos[id(shc[0])] for e in cfs):
+                        okh = okw = True
             if p.end == 'loop':
                 for e in lib.writes_of(p):
                     if field_chain(e[1])[-1:] == ['0'] and field_chain(e[2])[-1:] == ['1']:
